@@ -255,13 +255,75 @@ def report(chk, dis):
                        "impl": i1, "impl_stream": i2, "model": m}, False)
 
 
+def stateless(chk):
+    """write and read are functions of their arguments: reading a field with another code page (the documented
+    `encoding` parameter, e.g. to inspect a label written by a DOS tool) in between does not change what the ordinary
+    read of the same bytes returns, in either order; and the parameter itself is honoured"""
+    from basictdf.tdfTypes import BTSString
+    rng = common.rng_for(chk.seed, "C13stateless")
+    others = ["cp850", "latin-1", "cp1253", "cp437", "cp1251"]
+    chars = cp_chars()
+    for j in range(300 if chk.tier == "quick" else 3000):
+        w = rng.choice((8, 32, 256, 3))
+        n = rng.randrange(0, w)
+        text = [rng.choice(chars) for _ in range(n)]
+        if text:
+            text[rng.randrange(n)] = rng.choice([c for c in chars if c >= 0x80])        # a character the code pages disagree on
+        try:
+            field = BTSString.write(w, "".join(map(chr, text)))
+        except Exception:
+            continue
+        if j % 3 == 0:
+            field = field[:n] + b"\x00" + bytes(rng.getrandbits(8) for _ in range(w - n - 1))  # foreign tail
+        want = "".join(map(chr, text))
+        enc = others[j % len(others)]
+        order = j % 2
+        seen = []
+        try:
+            if order == 0:
+                seen.append(BTSString.read(w, field))
+            try:
+                alt = BTSString.read(w, field, encoding=enc)
+            except Exception as e:
+                alt = None
+            import io
+            try:
+                BTSString.bread(io.BytesIO(field), w, encoding=enc)
+            except Exception:
+                pass
+            seen.append(BTSString.read(w, field))
+            seen.append(BTSString.bread(io.BytesIO(field), w))
+            explicit = BTSString.read(w, field, encoding="windows-1252")
+        except Exception as e:
+            chk.violation("BTSString.read(%d, field of %r) raised %s around a read with encoding=%r" % (w, want[:30], common.exc_info(e), enc),
+                          {"width": w, "text": text, "other_encoding": enc}, True)
+            return
+        chk.note_case(("stateless", w, tuple(text), enc, order), True)
+        chk.count("read interleaved with another code page")
+        found = None
+        if any(x != want for x in seen) or explicit != want:
+            found = "the ordinary read returns %r (written: %r) when the same field is also read with encoding=%r %s" % (
+                [x for x in seen + [explicit] if x != want][0][:30], want[:30], enc, "before it" if order else "in between")
+        elif alt is not None:
+            raw = field[:field.index(b"\x00")] if b"\x00" in field else field
+            try:
+                ref = raw.decode(enc)
+            except Exception:
+                ref = None
+            if ref is not None and alt != ref:
+                found = "read(..., encoding=%r) returns %r, the bytes decode to %r in that code page" % (enc, alt[:30], ref[:30])
+        if found:
+            chk.violation("BTSString.read(%d, ...): %s" % (w, found), {"width": w, "text": text, "field": list(field), "other_encoding": enc}, True)
+            return
+
+
 def run(chk):
     chk.rule = ("write: every code point as 1-char string (thorough: all 0x110000; quick: <0x3000 + sample), every "
                 "cp1252 char at every position for widths 1,2,3,8 and first/middle/last for 32,256, lengths 0..w+3, "
                 "NUL / non-encodable at each position, random strings; read: every byte in small fields, random "
                 "fields with/without terminator; non-trivial = contains a non-ASCII char or is within 1 of the width "
                 "(write) / contains a byte >=128 or no NUL (read); each case run through BTSString.write/bwrite or "
-                "read/bread and through the extracted Str.v")
+                "read/bread and through the extracted Str.v; plus ordinary reads interleaved with reads of the same field through the `encoding` parameter (five other code pages), in both orders")
     chk.assumptions = ["cp1252 table of the running CPython is the reference for 'encodable'"]
     cases = gen_cases(chk)
     dis = evaluate(chk, cases)
@@ -277,6 +339,7 @@ def run(chk):
         if a != b:
             chk.violation("extracted model differs from vm_compute", {"cases": mc, "ocaml": a, "coq": b}, False)
     report(chk, dis)
+    stateless(chk)
     chk.exhaustive = chk.tier == "thorough"
 
 
